@@ -97,6 +97,7 @@ CHECKS = {
             dict(name="enum", test="TestC11Enum", kind="enum", shards=(4, 14)),
             dict(name="random", test="TestC11Random", checks=(12000, 4000000), shards=(4, 14), timeout=(240, 3000)),
             dict(name="default-config", test="TestC11Defaults", checks=(600, 100000), shards=(2, 8), timeout=(240, 3000)),
+            dict(name="handshake-overlap", test="TestC11Overlap", checks=(1200, 150000), shards=(4, 14), timeout=(240, 3000)),
         ]),
 
     "C12": dict(
